@@ -63,6 +63,7 @@ From Coq Require Import PrimFloat.
 From Coq Require Import ZArith List Bool Reals Lra.
 From BZ Require Import Base.Ops Gen.Point Gen.Cubic Hand.Fit Proofs.C14 Gen.Fit Proofs.Bridge.
 Import ListNotations.
+From BZ Require Gen.Sample Proofs.Bridge6.
 Open Scope R_scope.
 
 Theorem C14_count_le_budget :
@@ -180,6 +181,27 @@ Proof. exact @computeHook_gen. Qed.
 Theorem C14_chordLengthParameterize_is_generated :
   forall (T : Type) (O : Ops T) (points : list (pt T)) (l : list T), chordLengthParameterize O points = Some l -> l = CurveFit_chordLengthParameterize O points.
 Proof. exact @chordLengthParameterize_gen. Qed.
+Theorem C14_fitCurve_inner_gen :
+  forall (T : Type) (O0 : Ops T), lit O0 98 100 0x1.f5c28f5c28f5cp-1 = lit O0 49 50 0x1.f5c28f5c28f5cp-1 -> eqb O0 (ofZ O0 0) (ofZ O0 0) = true -> forall (fuel depth : nat) (points : list (pt T)) (t1 t2 : option (pt T)) (error cT : T) (ms : Z), (10 <= fuel)%nat -> (length points <= fuel)%nat -> fst (fitCurve_inner O0 depth points t1 t2 error cT ms) <> RRaise OutOfFuel -> Bridge6.pyres_of (CurveFit__fitCurve O0 fuel depth points t1 t2 error cT ms) = Some (fst (fitCurve_inner O0 depth points t1 t2 error cT ms)).
+Proof. exact @Bridge6.fitCurve_inner_gen. Qed.
+Theorem C14_fitCurve_gen :
+  forall (T : Type) (O0 : Ops T), lit O0 98 100 0x1.f5c28f5c28f5cp-1 = lit O0 49 50 0x1.f5c28f5c28f5cp-1 -> eqb O0 (ofZ O0 0) (ofZ O0 0) = true -> forall (fuel depth : nat) (data : list (pt T)) (error cT : T) (ms : Z), (10 <= fuel)%nat -> (length data <= fuel)%nat -> fst (fitCurve O0 depth data error cT ms) <> RRaise OutOfFuel -> Bridge6.pyres_of (CurveFit_fitCurve O0 fuel depth data error cT ms) = Some (fst (fitCurve O0 depth data error cT ms)).
+Proof. exact @Bridge6.fitCurve_gen. Qed.
+Theorem C14_fromPoints_hand :
+  forall (T : Type) (O0 : Ops T), lit O0 98 100 0x1.f5c28f5c28f5cp-1 = lit O0 49 50 0x1.f5c28f5c28f5cp-1 -> eqb O0 (ofZ O0 0) (ofZ O0 0) = true -> forall (fuel depth : nat) (data : list (pt T)) (error cT : T) (ms : Z), (10 <= fuel)%nat -> (length data <= fuel)%nat -> match fst (fitCurve O0 depth data error cT ms) with | RNone => Path_fromPoints O0 fuel depth data error cT ms = Some (Sample.Returns ([], false)) | RList l => Path_fromPoints O0 fuel depth data error cT ms = Some (Sample.Returns (l, false)) | RRaise (ZeroDivisionError as e) | RRaise (IndexError as e) | RRaise (TypeError as e) | RRaise (ValueError as e) => exists x : Sample.pyexc, Path_fromPoints O0 fuel depth data error cT ms = Some (Sample.Raises x) /\ Bridge6.exn_of x = Some e | RRaise OutOfFuel => True end.
+Proof. exact @Bridge6.fromPoints_hand. Qed.
+Theorem C14_fitCurve_gen_R :
+  forall (fuel depth : nat) (data : list (pt R)) (error cT : R) (ms : Z), (10 <= fuel)%nat -> (length data <= fuel)%nat -> fst (fitCurve ROps depth data error cT ms) <> RRaise OutOfFuel -> Bridge6.pyres_of (CurveFit_fitCurve ROps fuel depth data error cT ms) = Some (fst (fitCurve ROps depth data error cT ms)).
+Proof. exact @Bridge6.fitCurve_gen_R. Qed.
+Theorem C14_fitCurve_inner_gen_R :
+  forall (fuel depth : nat) (points : list (pt R)) (t1 t2 : option (pt R)) (error cT : R) (ms : Z), (10 <= fuel)%nat -> (length points <= fuel)%nat -> fst (fitCurve_inner ROps depth points t1 t2 error cT ms) <> RRaise OutOfFuel -> Bridge6.pyres_of (CurveFit__fitCurve ROps fuel depth points t1 t2 error cT ms) = Some (fst (fitCurve_inner ROps depth points t1 t2 error cT ms)).
+Proof. exact @Bridge6.fitCurve_inner_gen_R. Qed.
+Theorem C14_fitCurve_gen_F :
+  forall (tbl : list libm_entry) (fuel depth : nat) (data : list (pt float)) (error cT : float) (ms : Z), (10 <= fuel)%nat -> (length data <= fuel)%nat -> fst (fitCurve (FOpsT tbl) depth data error cT ms) <> RRaise OutOfFuel -> Bridge6.pyres_of (CurveFit_fitCurve (FOpsT tbl) fuel depth data error cT ms) = Some (fst (fitCurve (FOpsT tbl) depth data error cT ms)).
+Proof. exact @Bridge6.fitCurve_gen_F. Qed.
+Theorem C14_fitCurve_inner_gen_F :
+  forall (tbl : list libm_entry) (fuel depth : nat) (points : list (pt float)) (t1 t2 : option (pt float)) (error cT : float) (ms : Z), (10 <= fuel)%nat -> (length points <= fuel)%nat -> fst (fitCurve_inner (FOpsT tbl) depth points t1 t2 error cT ms) <> RRaise OutOfFuel -> Bridge6.pyres_of (CurveFit__fitCurve (FOpsT tbl) fuel depth points t1 t2 error cT ms) = Some (fst (fitCurve_inner (FOpsT tbl) depth points t1 t2 error cT ms)).
+Proof. exact @Bridge6.fitCurve_inner_gen_F. Qed.
 
 Print Assumptions C14_count_le_budget.
 Print Assumptions C14_result_covers.
@@ -219,3 +241,10 @@ Print Assumptions C14_B_are_generated.
 Print Assumptions C14_estimateBi_is_generated.
 Print Assumptions C14_computeHook_is_generated.
 Print Assumptions C14_chordLengthParameterize_is_generated.
+Print Assumptions C14_fitCurve_inner_gen.
+Print Assumptions C14_fitCurve_gen.
+Print Assumptions C14_fromPoints_hand.
+Print Assumptions C14_fitCurve_gen_R.
+Print Assumptions C14_fitCurve_inner_gen_R.
+Print Assumptions C14_fitCurve_gen_F.
+Print Assumptions C14_fitCurve_inner_gen_F.
